@@ -312,9 +312,19 @@ def _tables_complete(ctx, R, funcs):
     cls = repo.cls(PROFILE)
     ei = repo.func('droop.election.Election.__init__')
     tables = set()
+    pparam = ei.params[1] if len(ei.params) > 1 else 'electionProfile'
+
+    def is_profile(e):
+        """the profile handed to the election: the parameter, self.electionProfile, or a local bound once to either"""
+        if isinstance(e, ast.Name):
+            if e.id == pparam:
+                return True
+            ds = ei.assigns().get(e.id, [])
+            return len(ds) == 1 and isinstance(ds[0][0], ast.AST) and not isinstance(ds[0][0], ast.Name) and is_profile(ds[0][0]) or \
+                (len(ds) == 1 and isinstance(ds[0][0], ast.Name) and ds[0][0].id == pparam)
+        return isinstance(e, ast.Attribute) and e.attr == 'electionProfile' and isinstance(e.value, ast.Name) and e.value.id == 'self'
     for n in ei.own_nodes():
-        if isinstance(n, ast.Subscript) and isinstance(n.ctx, ast.Load) and isinstance(n.value, ast.Attribute) \
-                and isinstance(n.value.value, ast.Name) and n.value.value.id == 'electionProfile':
+        if isinstance(n, ast.Subscript) and isinstance(n.ctx, ast.Load) and isinstance(n.value, ast.Attribute) and is_profile(n.value.value):
             tables.add(n.value.attr)
     need(tables, 'R26: Election.__init__ indexes no profile table')
     pinit = cls.methods['__init__']
